@@ -155,6 +155,21 @@ func PropC06(c *vs.Case, f Factory, kind string) error {
 		desiredList = append(desiredList, n)
 	}
 	pre := OwnedBy(env.W.Sim, env.ChildResources(), env.ParentUID)
+	// the cache may not have caught up with one owned child yet (it exists on the server only)
+	c06Unobserved = ""
+	if len(pre) > 0 && c.Prob(1, 6) {
+		o := pre[c.Int(len(pre))]
+		d := env.W.Sim.DefByKind(o["apiVersion"].(string), o["kind"].(string))
+		key := metaStr(o, "name")
+		if ns := metaStr(o, "namespace"); ns != "" {
+			key = ns + "/" + key
+		}
+		if item, ok, _ := env.W.Indexers[d.Resource].GetByKey(key); ok {
+			_ = env.W.Indexers[d.Resource].Delete(item)
+			c06Unobserved = ObjID(o)
+			c.Class("owned-child-missing-from-cache")
+		}
+	}
 	t := env.Sync()
 	if t.Panic != "" {
 		return vs.Violf("C06/panic", "panic: %s", t.Panic)
@@ -175,6 +190,9 @@ func PropC06(c *vs.Case, f Factory, kind string) error {
 	return err
 }
 
+// c06Unobserved: the owned child (ObjID) that was removed from the cache before the sync under test.
+var c06Unobserved string
+
 func propC06Judge(c *vs.Case, env *Env, scn *Scn, t *SyncTrace, pre []map[string]any, desired map[string]map[string]any, desiredList []map[string]any) error {
 	recreated := map[string]map[string]any{}
 	expectErr := false
@@ -184,6 +202,16 @@ func propC06Judge(c *vs.Case, env *Env, scn *Scn, t *SyncTrace, pre []map[string
 		id := ObjID(o)
 		method := scn.Cfg.MethodOf(d.Resource)
 		c.Class("method-%s", orStr(method, "unset"))
+		if id == c06Unobserved {
+			// the sync did not see this child: at most a create that the server refuses (it exists already);
+			// nothing may be changed on the strength of an object the sync never observed
+			for _, w := range ws {
+				if w.Accepted() {
+					return vs.Violf("C06/write-to-unobserved-child", "%s exists on the server but was not in the cache the sync acted on; still %s was accepted (method %q)", id, w.String(), method)
+				}
+			}
+			continue
+		}
 		want, isDesired := desired[id]
 		if !isDesired {
 			if IsDeleting(o) {
